@@ -1,4 +1,5 @@
 import XModel.MadxThms
+import XModel.MadxParen
 /-!
 # C19 — MAD-X expressions mean the same deferred as evaluated immediately
 Model: `XModel/Madx.lean`.  `evalI ops false` is `MadxEval` over plain variables (the callbacks are
@@ -25,5 +26,22 @@ theorem C19_div_guard {V : Type} (ops : Ops V) (l r : MTree) (a b : V)
 #guard match parse [.minus, .num "2", .pow, .num "2"] with | some (.pow (.neg (.number "2")) (.number "2")) => true | _ => false
 #guard match parse [.num "2", .pow, .num "3", .pow, .num "2"] with
   | some (.pow (.pow (.number "2") (.number "3")) (.number "2")) => true | _ => false
+
+/-- **fully parenthesised input**: rendering a tree with every compound node in parentheses and parsing it gives the
+    tree back — no precedence or associativity decision is left to the grammar — for every tree the grammar can produce
+    (`WFTree` is exactly the range of the parser: `wfTree_iff_parse`) -/
+theorem C19_full_paren_parse (t : MTree) (h : WFTree t) : parse (fullParen t) = some t :=
+  parse_fullParen t h
+
+/-- hence on fully parenthesised input the immediate evaluation is ordinary arithmetic on the tree the parentheses
+    spell out, and so is the deferred one unless a division by zero occurs -/
+theorem C19_full_paren_value {V : Type} (ops : Ops V) (hd : DivOnly ops) (t : MTree) (h : WFTree t) :
+    (parse (fullParen t)).map (evalI ops false) = some (evalI ops false t) ∧
+    (evalI ops false t ≠ .error .zeroDiv →
+      (parse (fullParen t)).map (evalI ops true) = some (evalI ops false t)) :=
+  ⟨eval_fullParen ops t h, fun hz => eval_fullParen_deferred ops hd t h hz⟩
+
+/-- the trees the theorem speaks about are exactly the parser's outputs -/
+theorem C19_parser_range (t : MTree) : WFTree t ↔ ∃ toks, parse toks = some t := wfTree_iff_parse t
 
 end Properties.C19
